@@ -114,7 +114,7 @@ open_("C18", "D44", "C06/exit", ["C06/stdout", "C18/proxied-argv-differs"],
       "command line: `git --version status -s` (likewise `-v ...`) => plain git runs `git version status -s` and fails with exit 129 (unknown switch); the proxy re-emits just `version`, drops every trailing argument and exits 0",
       "c18.version_option_drops_trailing_arguments", ["version_with_trailing_args", "tmpl:--version status", "tmpl:-v log"], affects=["C06"])
 open_("C15", "D16", "C15/strict-notes-differ@commit1", ["C15/strict-notes-differ@commit2"],
-      "history: commit 1 adds AI lines 5-6 to f.txt (S1), commit 2 adds AI line 2 to f.txt (S2), upstream touches only g.txt; `git rebase main` => the shortcut copies the commit-scoped notes (f.txt: S1 5-6 / f.txt: S2 2), the full replay writes cumulative notes (commit 1 also carries S2's prompt record, commit 2 also lists S1's lines 6-7 which it did not add); equal after projecting onto the lines each commit adds",
+      "history: commit 1 adds AI lines 5-6 to f.txt (S1), commit 2 adds AI line 2 to f.txt (S2), upstream touches only g.txt; `git rebase main` => the shortcut copies the commit-scoped notes (f.txt: S1 5-6 / f.txt: S2 2), the full replay writes cumulative notes (commit 1 also carries S2's prompt record, commit 2 also lists S1's lines 6-7 which it did not add); equal after projecting onto the lines each commit adds. Second face of the same design (counted, not re-reported): because the replay works backwards from the state of the last commit of the range, an agent line that commit k adds and a later commit of the range deletes again is missing from the replay's note for commit k, while the copied note lists it",
       "c15.two_commit_rebase_same_file_strict_vs_replay", ["slow_path_strict_notes"])
 # ---------------------------------------------------------------- C02
 open_("C02", "D20", "C03/unsound-note@f.txt:12", [],
@@ -148,6 +148,7 @@ fixed("C02", "D25", "^fix: bare 'git stash' takes", "bare `git stash` (implicit 
 open_("C02", "D58", "C03/unsound-note@a.txt:5", ["C03/unsound-blame@a.txt:5"],
       "history (recorded script witnesses/d58_c02_77_183.json, reduced by tools/ddmin.py): S1 creates a.txt with 5 lines, commit; S2 replaces lines 1-2, a person (checkpoint taken) replaces line 3 by three own lines, both left unstaged across two commits of nothing; `git reset --soft HEAD~2`; commit => the person's line 5 is committed as S1's (the original random script un-did, with reset --soft HEAD~2, two commits in which a person had deleted and replaced some of S1's lines of the kept commit): the reconstruction after a soft / mixed reset maps the kept commit's line numbers onto the new content wrongly when the un-done or pending work removes lines",
       "recorded:witnesses/d58_c02_77_183.json", ["reset_over_removed_lines"])
+fixed("C02", "D64", "^fix: cherry-picked commits no longer get notes", "`git cherry-pick C1 C2` (C1: S1's line at the bottom of f.txt; C2: two lines at the top of f.txt and S1's three lines in g.txt) onto a branch that already has the two top lines, so that the shortcut declines: the full replay wrote, for the first new commit, a note that also listed g.txt lines 2-4 - lines that commit does not contain (a person's lines, or past the end of the file)", "c02.cherry_pick_range_first_commit_must_not_list_later_files")
 fixed("C02", "D54", "^fix: CI rebase-merge detection", "a pull request of two commits (the first adds two AI lines at the end of f.txt, the second deletes them again) squash-merged on the server onto a base branch with earlier commits: `git-ai ci local merge` (likewise the GitHub CI run) took the squash for a rebase merge because it walked two commits back from the squash commit into the base branch; the squash commit got the note of the last original commit only, listing lines 8-9 of a 5-line file, and the note of an older base-branch commit was overwritten", "c02.ci_squash_merge_of_two_commits_on_moved_base")
 
 open_("C18", "D49", "C18/alias-tokens-differ@trailing-backslash", [],
